@@ -100,15 +100,18 @@ def allSpanningMasks (rows cols : Nat) : List Nat :=
   let subsets := slots.foldl (fun acc b => acc ++ acc.map (· ||| (1 <<< b))) [0]
   subsets.filter (isSpanningMask rows cols)
 
-/-- the table fact decided by evaluation: after `n0` draws the finished masks are exactly the `N` spanning trees of
-    the grid, each with probability in `[1/N - eps, 1/N]`, and the unfinished mass is at most `eps` -/
+/-- the target "the generator returned the maze with connection mask `T`" -/
+def edgesAre (T : Nat) (s : WStep.WS) : Bool := decide (s.edges = T)
+
+/-- the table fact decided by evaluation: the grid has exactly `N` spanning trees and, after `n0` draws, each of them
+    has been returned with probability in `[1/N - eps, 1/N]` while the unfinished mass is at most `eps` -/
 def tableOK (rows cols n0 N : Nat) (eps : Rat) : Bool :=
   let d := law rows cols n0
-  let tt := treeTable rows cols d
-  let masks := tt.map (·.1)
   let span := allSpanningMasks rows cols
-  span.length == N && masks.length == N && span.all masks.contains && masks.all span.contains &&
-  tt.all (fun mw => decide (1 / (N : Rat) - eps ≤ mw.2 ∧ mw.2 ≤ 1 / (N : Rat))) &&
+  span.length == N && decide span.Nodup &&
+  span.all (fun T =>
+    let p := massFin (wilson rows cols) (edgesAre T) d
+    decide (1 / (N : Rat) - eps ≤ p ∧ p ≤ 1 / (N : Rat))) &&
   decide (massUnfin (wilson rows cols) d ≤ eps)
 
 end MZ.WProb
